@@ -114,6 +114,69 @@ def run(ctx):
     # ---- (iii) get_scope
     for gp in scope_fns:
         check_scope(ctx, gp)
+    check_clock_forwarding(ctx, f)
+    check_clock_range(ctx, f)
+
+
+def _is_clock(ty):
+    return "automerge::clock::Clock" in ty and "Option" in ty and "ClockRange" not in ty
+
+
+def check_clock_forwarding(ctx, f):
+    """inside every function that receives a clock (Option<Clock> / Option<&Clock> parameter), each clock it hands to another automerge
+    function derives from that parameter: a worker that asks the op set with a literal None answers from the present document"""
+    ctx.rule("R9-clock-param", "provenance: every Option<Clock> argument passed by a function with a clock parameter derives from that parameter, never a literal None")
+    n = 0
+    for p, r in sorted(f.fns.items()):
+        if r["ckey"] != ("automerge", "lib"):
+            continue
+        b = cfg.body(r)
+        cps = [i for i in range(1, b.argc + 1) if _is_clock(b.local_ty(i))]
+        if not cps:
+            continue
+        sites = []
+        for bi, t in b.calls():
+            tgt = norm_fn(t.get("res") or t.get("fn")) or ""
+            if not (tgt.startswith("automerge::") or tgt.startswith("<automerge::")):
+                continue
+            for i, ty in enumerate(t.get("argtys", [])):
+                if _is_clock(ty):
+                    sites.append((bi, t, i))
+        if sites:
+            ctx.analysed_fns.add(p)
+        for k, (bi, t, i) in util.ordinal_keys(sites, lambda s_: "%s|%s" % (norm_fn(p), norm_fn(s_[1].get("res") or s_[1].get("fn")).split("::")[-1])):
+            n += 1
+            pv = b.provenance(t["args"][i], through_calls=True)
+            dep = any(pi in cps for pi, _ in pv.params)
+            lit = any(a == "core::option::Option" and v == "None" for a, v in pv.aggs)
+            ctx.ob("R9-clock-param", k, dep and not lit, t["sp"], "clock parameter handed on" if dep and not lit else
+                   "a clock that does not derive from this function's clock parameter (literal None: %s) is passed to %s: the historical read consults the present document" % (lit, norm_fn(t.get("res") or t.get("fn")).split("::")[-1]))
+    ctx.floor("clock arguments forwarded by clocked functions", n, 60)
+
+
+def check_clock_range(ctx, f):
+    """ClockRange::visible_after / after: the unconditional answer (true / None) is given only where the range carries no clock"""
+    ctx.rule("R2-clockrange", "ClockRange::visible_after returns the constant true only on the None arm of Current's inner Option<Clock>")
+    p = [x for x in f.fns if norm_fn(x) == "automerge::clock::ClockRange::visible_after"]
+    if len(p) != 1:
+        raise facts.AnchorMissing("ClockRange::visible_after")
+    b = cfg.body(f.fns[p[0]])
+    ctx.analysed_fns.add(p[0])
+    none_edges = []
+    for sb, sw in b.switches():
+        src = b.bool_operand_source(sw["op"])
+        if src and src["kind"] == "discr" and util.base_ty(src.get("ty") or "") == "core::option::Option" and "Clock" in (src.get("ty") or ""):
+            none = [tb for v, tb in sw["targets"] if (src["vars"] or {}).get(v) == "None"]
+            none_edges.append((sb, none[0] if none else sw["otherwise"]))
+    trues = [(bi, st) for bi, blk in enumerate(b.blocks) if not blk.get("cleanup") and bi in b.live_blocks() for st in blk["st"]
+             if st["d"]["l"] == 0 and not st["d"]["p"] and st["rv"]["k"] == "Use" and (util.op_const(st["rv"]["o"][0]) or {}).get("v") in ("1", "true")]
+    covers = [bi for bi, t in b.calls() if norm_fn(t.get("res") or t.get("fn")) == "automerge::clock::Clock::covers"]
+    ctx.floor("Clock::covers calls in ClockRange::visible_after", len(covers), 2)
+    ctx.floor("constant-true results in ClockRange::visible_after", len(trues), 1)
+    for k, (bi, st) in util.ordinal_keys(trues, lambda it: "ClockRange::visible_after|constant true"):
+        ok = bool(none_edges) and b.edges_dominate(none_edges, bi)
+        ctx.ob("R2-clockrange", k, ok, st["sp"], "only when the range carries no clock (Current(None))" if ok else
+               "`true` is answered although the range may carry a clock: ops after the requested heads become visible to the readers that use ClockRange (range iterators, counter increments)")
 
 
 def check_scope(ctx, gp):
